@@ -1,7 +1,7 @@
 """C49 - UART transmitters produce exact 8N1 frames.
 
 DUTs: luna.gateware.interface.uart.UARTTransmitter(divisor) and
-      UARTMultibyteTransmitter(byte_width 1..4, divisor); divisor 1..24 plus a few larger ones
+      UARTMultibyteTransmitter(byte_width 1..8, divisor); divisor 1..24, 31..64 and 65..600 (256/257, 511..513, 520..)
       (powers of two and their neighbours on purpose: the baud counter is sized by the divisor).
 
 Workload (per case one transmitter, 12..60 stream items): `valid` held back to back (new payload in
@@ -31,8 +31,9 @@ Monitors / oracle (all in one per-cycle monitor, reference written from the 8N1 
 
 Deviations from DESIGN section 7 / not judged:
   * "valid dropped before acceptance" is illegal stream stimulus and is not generated.
-  * `idle` of UARTMultibyteTransmitter is only judged in the direction quiescent => idle: the real block
-    reports idle (= "a word would be accepted") while its last byte is still on the line; the
+  * `idle` of UARTMultibyteTransmitter is judged as quiescent => idle and as "never idle while accepted bytes
+    have not started their frame" (catches a stuck-at-1); it is NOT required to be 0 during the last frame: the
+    real block reports idle (= "a word would be accepted") while its last byte is still on the line and the
     property statement does not speak about that output.
   * `driving` is not judged.  The latency between a transfer and the start bit is only bounded (SLACK).
 """
@@ -40,10 +41,11 @@ from rv.sim import Bench
 
 PROPERTY = "C49"
 CASES = {"quick": 256, "thorough": 5120}
-RULE = ("case = (plain | multibyte width 1..4, divisor 1..24 or one of 31/32/33/64, 12..60 items with a per-item "
+RULE = ("case = (plain | multibyte width 1..8, divisor 1..24, 31/32/33/64 or 65..600 (then 2..4 items), 12..60 items with a per-item "
         "spacing mode: back-to-back / random gap / valid raised -3..+3 cycles around the end of the running frame); "
         "non-trivial = the case had a contiguous frame pair and a frame started from idle; distinct = hash of config + items + gaps")
-REQUIRED_BINS = ["plain", "multibyte", "multibyte_width_ge2", "divisor_1", "divisor_pow2", "divisor_ge_16",
+REQUIRED_BINS = ["plain", "multibyte", "multibyte_width_ge2", "divisor_1", "divisor_pow2", "divisor_ge_16", "divisor_gt_256", "divisor_gt_512", "multibyte_width_ge5",
+                 "multibyte_idle_checked_while_bytes_unsent",
                  "frame_contiguous", "frame_from_idle", "accept_at_last_stop_cycle", "valid_rose_at_last_stop_cycle",
                  "valid_rose_first_idle_cycle", "valid_waited_for_ready", "byte_00", "byte_ff", "word_bytes_distinct"]
 REQUIRED_EVENTS = ["transfers", "bytes_owed", "frames_checked", "bit_cycles_checked", "idle_line_cycles_checked",
@@ -64,9 +66,14 @@ def run_case(rng, tier, res):
     from luna.gateware.interface.uart import UARTTransmitter, UARTMultibyteTransmitter
 
     multi = rng.random() < 0.45
-    bw = rng.choice([1, 2, 2, 3, 4, 4]) if multi else 1
+    bw = rng.choice([1, 2, 2, 3, 4, 4, 5, 6, 7, 8]) if multi else 1
     div = rng.choice([1, 1, 2, 3, 4, 5, 7, 8, 9, 15, 16, 17, 24, rng.randint(1, 24), rng.randint(1, 24),
                       rng.randint(1, 24), rng.choice([31, 32, 33, 64])])
+    if rng.random() < 0.18:
+        # real-world divisors (luna's debug UART runs at ~520), values around the 8/9-bit counter boundaries
+        div = rng.choice([513, 520, 521, 600, 520, 600, 560, 257, 300, 511, 512, 100, 255, 256])
+        if multi:
+            bw = rng.choice([1, 2, 2, 3])       # wide words are exercised at the small divisors
     if multi:
         dut = UARTMultibyteTransmitter(byte_width=bw, divisor=div)
     else:
@@ -75,6 +82,9 @@ def run_case(rng, tier, res):
     item_len = frame_len * bw
     budget = rng.randint(2500, 5000)
     nitems = max(12, min(60, budget // item_len))
+    if div > 64:
+        # real-world divisors (luna's debug UART runs at ~520): few frames so that the case stays around 20k cycles
+        nitems = max(2, min(4, 16000 // item_len))
     res.bin("multibyte" if multi else "plain")
     if multi and bw >= 2:
         res.bin("multibyte_width_ge2")
@@ -84,6 +94,12 @@ def run_case(rng, tier, res):
         res.bin("divisor_pow2")
     if div >= 16:
         res.bin("divisor_ge_16")
+    if div > 256:
+        res.bin("divisor_gt_256")
+    if div > 512:
+        res.bin("divisor_gt_512")
+    if multi and bw >= 5:
+        res.bin("multibyte_width_ge5")
 
     # ---------------------------------------------------------------- stimulus script
     style = rng.choice(["mixed", "mixed", "burst", "edges", "sparse"])
@@ -224,6 +240,15 @@ def run_case(rng, tier, res):
         if st["cur"] is not None and not multi and idle and 1 <= st["pos"] - 1 <= frame_len - 2:
             fail("idle_asserted_inside_frame", "idle=1 at frame cycle %d of %d" % (st["pos"] - 1, frame_len))
             return
+        if multi and st["owed"]:
+            # accepted bytes whose frame has not even started: the transmitter is not idle under any reading of `idle`
+            res.bin("multibyte_idle_checked_while_bytes_unsent")
+            st["idle_owed"] = st.get("idle_owed", 0) + 1 if idle else 0
+            if st["idle_owed"] >= 2:
+                fail("idle_asserted_while_accepted_bytes_unsent", "idle=1 for 2 cycles while %d accepted bytes have not started their frame" % len(st["owed"]))
+                return
+        else:
+            st["idle_owed"] = 0
         if st["cur"] is None and not st["owed"] and not (valid and ready):
             st["quiet"] += 1
             if st["quiet"] > SLACK and not idle:
